@@ -28,6 +28,7 @@ use super::constant::MIN_BLOCK_SIZE;
 use super::error::verify_range;
 use super::error::verify_true;
 use super::error::SourceError;
+use super::error::SourceErrorReason;
 use super::error::VerifyError;
 
 /// Traits for buffer-like objects that can be filled by [`Source`].
@@ -279,6 +280,10 @@ impl Fill for FrameBuf {
     fn fill_interleaved(&mut self, interleaved: &[i32]) -> Result<(), SourceError> {
         let stride = self.size();
         let channels = self.channels();
+        if interleaved.len() > stride * channels {
+            // more samples than the block size.
+            return Err(SourceError::by_reason(SourceErrorReason::InvalidBuffer));
+        }
         deinterleave(interleaved, channels, stride, &mut self.samples);
         self.filled_size = interleaved.len() / channels;
         Ok(())
@@ -286,6 +291,13 @@ impl Fill for FrameBuf {
 
     #[inline]
     fn fill_le_bytes(&mut self, bytes: &[u8], bytes_per_sample: usize) -> Result<(), SourceError> {
+        if !(1..=4).contains(&bytes_per_sample)
+            || bytes.len() % bytes_per_sample != 0
+            || bytes.len() / bytes_per_sample > self.size() * self.channels()
+        {
+            // unsupported sample format, or more samples than the block size.
+            return Err(SourceError::by_reason(SourceErrorReason::InvalidBuffer));
+        }
         let sample_count = bytes.len() / bytes_per_sample;
         self.readbuf.resize(sample_count, 0);
         le_bytes_to_i32s(bytes, &mut self.readbuf, bytes_per_sample);
@@ -420,6 +432,10 @@ impl Fill for Context {
     fn fill_le_bytes(&mut self, bytes: &[u8], bytes_per_sample: usize) -> Result<(), SourceError> {
         if bytes.is_empty() {
             return Ok(());
+        }
+        if bytes_per_sample != self.bytes_per_sample {
+            // the bytes would be hashed and counted as samples of another width.
+            return Err(SourceError::by_reason(SourceErrorReason::InvalidBuffer));
         }
         self.md5.update(bytes);
         self.sample_count += bytes.len() / self.channels / bytes_per_sample;
